@@ -13,7 +13,9 @@ THEOREMS = [
     "B2Z.RIdx.C12_cover", "B2Z.RIdx.C12_segment_uniform", "B2Z.RIdx.C12_segment_in_chunk",
     "B2Z.RIdx.C12_maximal", "B2Z.RIdx.C12_row_exact", "B2Z.RIdx.wrap_id",
     "B2Z.RIdx.C12_region_index_exact", "B2Z.RIdx.C12_narrow_dtype_counterexample",
+    "B2Z.RIdx.C12_region_index_exact_wide", "B2Z.RIdx.C12_bridge_width", "B2Z.RIdx.C12_region_index_exact_src",
 ]
+GEN_DEPENDS = ["RegionIndex."]
 ASSUMPTIONS = [
     "numpy element semantics (int32 addition wraps; np.diff/np.nonzero/np.max) as transcribed in Model/RegionIndex.lean — validated by correspondence",
     "guard of the exactness theorem: pos + length - 1 < 2^31 (VCF's coordinate limit and the index's own int32 dtype)",
